@@ -6,6 +6,7 @@ from contextlib import contextmanager
 from typing import TYPE_CHECKING
 
 from .checkpoint_int import SnapshottingInt
+from .grammar.rule import SILENT_ATOMIC
 from .grammar.rule import Rule
 from .stack import Stack
 
@@ -77,7 +78,9 @@ class ParserState:
 
         assert self.parser
 
-        if skip := self.parser.rules.get("SKIP"):
+        skip = self.parser.rules.get("SKIP")
+        if skip and skip.modifier == SILENT_ATOMIC:
+            # The optimizer's fused trivia rule, not a grammar rule named SKIP.
             return skip.parse(self, pairs)
 
         # Unoptimized whitespace and comment rules.
